@@ -19,6 +19,49 @@ META = {
 TAG = {'poll_ready': 'Ready', 'poll_flush': 'Flush', 'poll_close': 'Close', 'poll_next': 'Read', 'start_send': 'Write'}
 
 
+def stops_at_first_error(ctx, tag):
+    """Requests::execute consumes the request stream only up to its first error item"""
+    F, P, R = ctx.F, ctx.P, ctx.run
+    ex = [f for f in F.fns.values() if f.impl_of and f.impl_of.get('self_head') and path_matches(f.impl_of['self_head'], 'server::Requests') and f.npath.endswith('::execute')]
+    if len(ex) != 1:
+        raise CannotDecide('Requests::execute')
+    ex = ex[0]
+    tw = [(bb, t) for bb, t in ex.calls() if callee_is(t, 'StreamExt::take_while')]
+    ok = len(tw) == 1
+    if ok:
+        bb, t = tw[0]
+        # the predicate: a closure built here, or a named function passed by value
+        body, item_param = None, None
+        for r, _ in P.root(P.operand(ex, t['args'][1], at=bb)):
+            if r[0] == 'agg' and P._agg_rv(r).get('adt') == 'closure':
+                body, item_param = F.fns.get(P._agg_rv(r)['adt_id']), 2
+            elif r[0] == 'const' and len(r) > 3 and r[3]:
+                cands = [f_ for f_ in F.fns.values() if f_.kind == 'Fn' and f_.npath == str(r[3]).split('<')[0].replace('tarpc::', '', 1) or f_.id == 'tarpc::' + str(r[3]).split('<')[0]]
+                if len(cands) == 1:
+                    body, item_param = cands[0], 1
+        ok = body is not None
+        if ok:
+            readies = [(b2, t2) for b2, t2 in body.calls() if callee_is(t2, 'future::ready')]
+            rr = P.root(P._local_whole(body, 0))
+            ok = bool(rr) and bool(readies) and all(P.is_call(r, 'future::ready') for r, _ in rr)
+            is_item = lambda x: bool(P.root(x)) and all(y == ('param', body.id, item_param) for y, _ in P.root(x))
+            for b2, t2 in readies:
+                ar = P.root(P.operand(body, t2['args'][0], at=b2))
+                if ar and all(P.is_call(x, 'Result::is_ok') and is_item(P.args_of(x)[0]) for x, _ in ar):
+                    continue     # ready(result.is_ok())
+                # ready(true) on the Ok edge / ready(false) on the Err edge of a match on the item
+                arg = t2['args'][0]
+                if arg.get('k') == 'const' and arg.get('ty') == 'bool':
+                    want = ['Ok'] if 'true' in arg['v'] else ['Err']
+                    if guarded_by_variant(F, P, body, b2, is_item, want):
+                        continue
+                ok = False
+        recv = P.root(P.operand(ex, t['args'][0], at=bb))
+        ok = ok and all(r == ('param', ex.id, 1) for r, _ in recv)
+    R.ob(tag, ('Requests::execute', 'stops at the first channel error'), ok, 'serving a channel stops at the first error item of its request stream (take_while(result.is_ok()))', [ex.loc(ex.d)])
+    return ex
+
+
 def run(ctx):
     F, P, R = ctx.F, ctx.P, ctx.run
     R.explanation = META['text']
@@ -237,43 +280,7 @@ def run(ctx):
 
     # ------------------------------------------------------------------ server: stop at first error, Drop aborts
     S = Server(F, P)
-    ex = [f for f in F.fns.values() if f.impl_of and f.impl_of.get('self_head') and path_matches(f.impl_of['self_head'], 'server::Requests') and f.npath.endswith('::execute')]
-    if len(ex) != 1:
-        raise CannotDecide('Requests::execute')
-    ex = ex[0]
-    tw = [(bb, t) for bb, t in ex.calls() if callee_is(t, 'StreamExt::take_while')]
-    ok = len(tw) == 1
-    if ok:
-        bb, t = tw[0]
-        # the predicate: a closure built here, or a named function passed by value
-        body, item_param = None, None
-        for r, _ in P.root(P.operand(ex, t['args'][1], at=bb)):
-            if r[0] == 'agg' and P._agg_rv(r).get('adt') == 'closure':
-                body, item_param = F.fns.get(P._agg_rv(r)['adt_id']), 2
-            elif r[0] == 'const' and len(r) > 3 and r[3]:
-                cands = [f_ for f_ in F.fns.values() if f_.kind == 'Fn' and f_.npath == str(r[3]).split('<')[0].replace('tarpc::', '', 1) or f_.id == 'tarpc::' + str(r[3]).split('<')[0]]
-                if len(cands) == 1:
-                    body, item_param = cands[0], 1
-        ok = body is not None
-        if ok:
-            readies = [(b2, t2) for b2, t2 in body.calls() if callee_is(t2, 'future::ready')]
-            rr = P.root(P._local_whole(body, 0))
-            ok = bool(rr) and bool(readies) and all(P.is_call(r, 'future::ready') for r, _ in rr)
-            is_item = lambda x: bool(P.root(x)) and all(y == ('param', body.id, item_param) for y, _ in P.root(x))
-            for b2, t2 in readies:
-                ar = P.root(P.operand(body, t2['args'][0], at=b2))
-                if ar and all(P.is_call(x, 'Result::is_ok') and is_item(P.args_of(x)[0]) for x, _ in ar):
-                    continue     # ready(result.is_ok())
-                # ready(true) on the Ok edge / ready(false) on the Err edge of a match on the item
-                arg = t2['args'][0]
-                if arg.get('k') == 'const' and arg.get('ty') == 'bool':
-                    want = ['Ok'] if 'true' in arg['v'] else ['Err']
-                    if guarded_by_variant(F, P, body, b2, is_item, want):
-                        continue
-                ok = False
-        recv = P.root(P.operand(ex, t['args'][0], at=bb))
-        ok = ok and all(r == ('param', ex.id, 1) for r, _ in recv)
-    R.ob('C09.server', ('Requests::execute', 'stops at the first channel error'), ok, 'serving a channel stops at the first error item of its request stream (take_while(result.is_ok()))', [ex.loc(ex.d)])
+    ex = stops_at_first_error(ctx, 'C09.server')
     drop = [m for m in S.table.methods if m.impl_of and (m.impl_of.get('trait') or '').endswith('Drop')]
     ok = len(drop) == 1
     if ok:
